@@ -48,6 +48,7 @@ type SchedCase struct {
 	Rounds     int          `json:"rounds"`
 	Flow       []RegionFlow `json:"flow,omitempty"`
 	StoreFlows []StoreFlow  `json:"store_flows,omitempty"`
+	Events     []StoreEvent `json:"events,omitempty"`
 	Seed       int64        `json:"seed"`
 }
 
@@ -65,6 +66,7 @@ func genSchedCase(t *rapid.T) SchedCase {
 	c.Seed = int64(simkit.IntU(t, 1, 1<<30, "seed"))
 	c.Type = simkit.Pick(t, schedTypes, "type")
 	c.Rounds = simkit.IntU(t, 1, 10, "rounds")
+	c.Events = genStoreEvents(t, len(c.Cluster.Stores), c.Rounds)
 	c.RangeTo = -1
 	nr := len(c.Regions)
 	holds := func(want func(r *simkit.RegionSpec, s uint64) bool) []uint64 {
@@ -166,6 +168,7 @@ type schedStats struct {
 	ops, moved, leaderOnly, rounds, legacy, joint int
 	handBack                                      bool
 	prepareRefused                                bool
+	fellSilent                                    int
 	skippedLeaderless                             bool
 }
 
@@ -198,6 +201,8 @@ func runSchedCase(c SchedCase) (vkit.Info, error) {
 	info.ClassIf(first.moved > 0, "operator:moves-peer")
 	info.ClassIf(first.leaderOnly > 0, "operator:leader-only")
 	info.ClassIf(first.ops >= 3, "operators>=3")
+	info.ClassIf(first.fellSilent > 0, "store-fell-silent-after-first-use")
+	info.ClassIf(len(c.Events) > 0, "store-event")
 	info.ClassIf(first.legacy > 0, "operator:without-joint-consensus")
 	info.ClassIf(first.joint > 0, "operator:joint-consensus")
 	info.ClassIf(first.prepareRefused, "prepare-refused")
@@ -248,6 +253,9 @@ func runSchedOnce(c *SchedCase, x *opCtx, rep int) (*schedStats, error) {
 	}
 	defer l.cancel()
 	st := &schedStats{}
+	xx := *x
+	xx.c = &l.spec // the oracle follows the store events of this execution
+	x = &xx
 	if len(c.Flow) > 0 {
 		l.mc.SetHotRegionCacheHitsThreshold(0)
 		for _, sf := range c.StoreFlows {
@@ -274,6 +282,9 @@ func runSchedOnce(c *SchedCase, x *opCtx, rep int) (*schedStats, error) {
 	}
 	defer s.Cleanup(l.mc)
 	for round := 0; round < c.Rounds; round++ {
+		if round >= 1 {
+			st.fellSilent += l.applyEvents(c.Events, round)
+		}
 		if !s.IsScheduleAllowed(l.mc) {
 			break
 		}
